@@ -207,3 +207,16 @@ func runSharded(cases []rawCase, outPath string, procs int) int {
 	must(w.Flush())
 	return n
 }
+
+// errText renders an error returned by the code under test.  Rendering is part of what a caller does with an error: an
+// Error() method that panics is a crash of the library (reported as such), not of the harness.
+func errText(err error) (text string, panicked bool) {
+	if err == nil {
+		return "", false
+	}
+	p, msg := guarded(func() { text = err.Error() })
+	if p {
+		return "<Error() panicked: " + msg + ">", true
+	}
+	return text, false
+}
